@@ -1,0 +1,40 @@
+//go:build verif
+// +build verif
+
+package onet
+
+import "go.dedis.ch/onet/v3/network"
+
+// Read-only accessors for the C07 harness (/verif/harness/cmd/c07).
+// Compiled only with the "verif" build tag.
+
+// VerifLocalManager returns the manager of the in-memory network of this
+// LocalTest, so that the harness can attach bare routers (peers that are not
+// onet servers) to it.
+func (l *LocalTest) VerifLocalManager() *network.LocalManager { return l.ctx }
+
+// VerifTree returns the stored tree (nil if absent or only requested).
+func (o *Overlay) VerifTree(id TreeID) *Tree { return o.treeStorage.Get(id) }
+
+// VerifPendingTreeMarshals returns the number of tree descriptions waiting for
+// their roster.
+func (o *Overlay) VerifPendingTreeMarshals() int {
+	o.pendingTreeLock.Lock()
+	defer o.pendingTreeLock.Unlock()
+	n := 0
+	for _, sl := range o.pendingTreeMarshal {
+		n += len(sl)
+	}
+	return n
+}
+
+// VerifPendingTreeMarshalsNoLock is VerifPendingTreeMarshals for a state in
+// which pendingTreeLock is known to be held for ever (the caller checked it
+// with VerifLocksFree and nothing else runs).
+func (o *Overlay) VerifPendingTreeMarshalsNoLock() int {
+	n := 0
+	for _, sl := range o.pendingTreeMarshal {
+		n += len(sl)
+	}
+	return n
+}
